@@ -27,6 +27,13 @@ class OrientedBoundary(ndarray):
             return
         self.ori = getattr(obj, 'ori', None)
 
+    def __getitem__(self, key):
+        # the flags follow the facets they belong to
+        out = super().__getitem__(key)
+        if isinstance(out, OrientedBoundary) and self.ori is not None:
+            out.ori = self.ori[key]
+        return out
+
 
 def deprecated(replacement):
     def deprecated_decorator(func):
